@@ -73,6 +73,46 @@ def insDirsR (K : α) : Tree α → List Dir → List Dir
 def rbInsert (S : α) (nn : Node α) (t : Tree α) : Tree α :=
   rbInsFix S (insDirsR nn.key t []) (leafInsert nn t)
 
+/-! ### the deletion -/
+
+/-- the loop of `_rb_delete_fixup`.  `x` sits at the path `rp` (innermost step first: `x` the `dx`-child of its
+    parent at `rq.reverse`); returns the tree and the position of `x` when the loop ends.  While `x` is not the root
+    and black: a red sibling `w` is rotated above the parent (case 1); a NIL sibling, or one with two black children
+    (case 2: `w` red), moves `x` to its parent; otherwise a black far child of `w` is first repaired by a rotation at
+    `w` (case 3), then `w` takes the parent's colour, the parent and the far child become black, the rotation at the
+    parent ends the loop with `x = root` (case 4). -/
+def delFixP (S : α) : List Dir → Tree α → Tree α × List Dir
+  | [], t => (t, [])
+  | dx :: rq, t =>
+    if isRed (subAt (dx :: rq).reverse t) then (t, dx :: rq)
+    else
+      let pp := rq.reverse
+      let pw := pp ++ [dx.flip]
+      let c1 := isRed (subAt pw t)
+      let t1 := if c1 then atPath (rotD S dx) pp (atPath (setCol true) pp (atPath (setCol false) pw t)) else t
+      let rq1 := if c1 then dx :: rq else rq
+      let pp1 := rq1.reverse
+      let pw1 := pp1 ++ [dx.flip]
+      match subAt pw1 t1 with
+      | .nil => if c1 then (t1, rq1) else delFixP S rq t1
+      | .node wl _ _ _ wr =>
+        let near := match dx with | .L => wl | .R => wr
+        let far := match dx with | .L => wr | .R => wl
+        if !(isRed near) && !(isRed far) then
+          let t2 := atPath (setCol true) pw1 t1
+          if c1 then (t2, rq1) else delFixP S rq t2
+        else
+          let t3 := if !(isRed far) then
+              atPath (rotD S dx.flip) pw1 (atPath (setCol true) pw1 (atPath (setCol false) (pw1 ++ [dx]) t1))
+            else t1
+          let cp := isRed (subAt pp1 t3)
+          (atPath (rotD S dx) pp1 (atPath (setCol false) (pw1 ++ [dx.flip]) (atPath (setCol false) pp1
+            (atPath (setCol cp) pw1 t3))), [])
+
+/-- `_rb_delete_fixup`: the loop, then `x` is blackened -/
+def rbDelFix (S : α) (rp : List Dir) (t : Tree α) : Tree α :=
+  atPath (setCol false) (delFixP S rp t).2.reverse (delFixP S rp t).1
+
 end
 
 end XrsVerif.Viewshed
